@@ -337,6 +337,12 @@ func c04Gen(seed uint64, idx int, maxFaults int) *c04Case {
 	}
 	c.Files = files
 	c.Pristine = m.FileMap("/work")
+	if len(c.Faults) != 1 {
+		// faults do not compose: a second one can undo the first (lose the duplicated record, cut the
+		// include that leads to the damaged file, swap the damaged file out of reach); certainty about
+		// invalidity is claimed for single faults only, the disjunction clause for every run
+		c.MustReject = ""
+	}
 	return c
 }
 
